@@ -116,8 +116,7 @@ def known_functions():
 
 def make_config(facts, extra_inline=(), ret_summary=None, canon_arg=None) -> Config:
     inl = set(INLINE) | set(extra_inline)
-    known = known_functions()
-    return Config(facts=facts, inline=lambda f: f.qualname in inl or (bool(known) and (f.module.name + ":" + f.qualname) not in known),
+    return Config(facts=facts, inline=lambda f: f.qualname in inl,
                   str_domains={"*.units": UNITS, "*.type": ("weight", "molar")},
                   ret_summary=ret_summary, canon_arg=canon_arg)
 
